@@ -197,8 +197,10 @@ def native_replay(contract: Contract, case, env, rng=None):
     for name, cond in contract.ensures(S, case, inp, out):
         try:
             ok = bool(cond)
-        except Exception as e:  # pragma: no cover
-            ok = False
+        except Exception:
+            # the postcondition cannot be evaluated natively (e.g. it still contains a symbolic term): that is *no* verdict;
+            # `None` is neither a failure (`ok is False`) nor a success
+            ok = None
         res.append((name, ok))
     return res, {"inputs": _jsonable(inp), "outcome": _jsonable(contract.observe(out))}, S
 
@@ -541,7 +543,7 @@ def _native_fallback(contract, case, res, rng, tries=6):
             continue
         if r is None:
             continue
-        failed = [n for n, ok in r if not ok]
+        failed = [n for n, ok in r if ok is False]
         res.setdefault("native_fallback_runs", 0)
         res["native_fallback_runs"] += 1
         if failed:
@@ -718,7 +720,7 @@ def _handle_refuted(contract, case, cid, S, p, pi, hyps, goal, v, oname, full, r
         if r is None:
             viol["attempts"].append({"input": label, "skipped": detail})
             continue
-        failed = [n for n, ok in r if not ok]
+        failed = [n for n, ok in r if ok is False]
         att = {"input": label, "failed_obligations": failed}
         if failed:  # any obligation of this contract failing on the real code is a failing input for the property
             viol["reproduced"] = True
@@ -748,7 +750,7 @@ def _refute_natively(contract, case, cid, S, p, pi, v, oname, full, rng, n=8):
             continue
         if r is None:
             continue
-        failed = [n_ for n_, ok in r if not ok]
+        failed = [n_ for n_, ok in r if ok is False]
         if oname in failed:
             return {
                 "property": contract.prop,
